@@ -22,12 +22,13 @@ def _run_z3(args):
     seed = args[3] if len(args) > 3 else None
     t0 = time.time()
     try:
-        s = z3.Solver()
+        # a context of its own: the same text then gives the same run, whatever this
+        # process has parsed or solved before (term numbering steers z3's heuristics)
+        s = z3.Solver(ctx=z3.Context())
         s.set("timeout", timeout_ms)
         if seed is not None:
             # the retry uses other random seeds: a query that was unlucky once is usually not unlucky twice
             s.set("random_seed", seed)
-            s.set("seed", seed)
         s.from_string(smt2)
         r = s.check()
         model = None
@@ -242,6 +243,8 @@ def discharge(obligations, timeout_ms=10000, cross_check=False):
             outs2 = pool().map(_run_z3, [(j[1], j[2] * 3, True, 17) for j in again], chunksize=1)
             for (i, smt2, to), (r, model, t, reason) in zip(again, outs2):
                 results[i]["time_s"] += t
+                if r == "error":
+                    raise RuntimeError(f"solver could not run the retry of {obligations[i].key}: {reason[:200]}")
                 if r in ("sat", "unsat"):
                     results[i].update({"verdict": r, "model": model, "reason": "", "retried": True})
             retry = [x for x in retry if results[x[0]]["verdict"] == "unknown" or cross_check]
